@@ -269,6 +269,21 @@ def _bytes(*a, **k):
     return bytes(*a, **k)
 
 
+def _deepcopy(x, _memo=None):
+    """copy.deepcopy for plain containers of scalars and host sentinels (tables, label lists)."""
+    if isinstance(x, list):
+        return [_deepcopy(v) for v in x]
+    if isinstance(x, tuple):
+        return tuple(_deepcopy(v) for v in x)
+    if isinstance(x, dict):
+        return {k: _deepcopy(v) for k, v in x.items()}
+    if isinstance(x, set):
+        return {_deepcopy(v) for v in x}
+    if isinstance(x, (bool, int, str, float, bytes, type(None))) or not isinstance(x, (Instance,)):
+        return x          # scalars, sentinels (DontCare, Undefined) and host values are shared, as immutable objects are
+    raise AnalysisError('deepcopy of an instance of a repository class is not modelled')
+
+
 _CLASS_CACHE: dict = {}
 
 
@@ -385,6 +400,7 @@ class Interp:
             'logging.getLogger': lambda *a: _NullLogger(),
             'collections.defaultdict': __import__('collections').defaultdict,
             'io.StringIO': _HostStringIO,
+            'copy.deepcopy': _deepcopy,
             'collections.deque': __import__('collections').deque,
             'more_itertools.powerset': lambda xs: (lambda s_: __import__('itertools').chain.from_iterable(__import__('itertools').combinations(s_, r) for r in range(len(s_) + 1)))(list(xs)),
             'more_itertools.consume': lambda it_, n=None: [None for _ in it_] and None,
